@@ -28,6 +28,8 @@ ATT_LAYOUTS = [({"fg": 31}, {"fg": 31, "bold": True}), ({"bg": 44}, {}), ({"fg":
 # (name, kind, args, alphabet)   kind: pieces = list of slices of f ; text ; value
 CATALOGUE = (
     [("split", "pieces", (sep,), "ab, \n") for sep in (",", " ", "a", ", ", "\n")]
+    + [("split", "pieces", ("aa",), "ab"), ("split", "pieces", ("--",), "a-")]
+    + [("ljust", "textw", (None,), "WIDE"), ("rjust", "textw", (None,), "WIDE"), ("ljust", "textw", ("*",), "WIDE")]
     + [("split", "pieces_regex", (pat,), "ab, \n") for pat in ("[, ]", "a+", ",\\s*")]
     + [("splitlines", "lines", (ke,), alpha) for ke in (False, True) for alpha in ("ab\n", "a\n\r")]
     + [("ljust", "textw", (fill,), "ab ") for fill in (None, "*")]
@@ -51,6 +53,7 @@ CATALOGUE = (
 SLOW = {"title", "capitalize", "swapcase", "casefold", "isdigit", "isalpha", "isspace", "isupper", "islower", "isalnum",
         "upper", "lower", "expandtabs", "encode", "zfill"}
 CAT_TEXTS = ["", "a", "A", " ", "ab", "aB", "a b", "Ab ", " a", "a1", "1", "-1", "a\tb", "\u00e9a", "ab c", "A B"]
+WIDE_TEXTS = ["", "a", "\uff25", "a\uff25", "\uff25\uff25b", "a\u0301", "\u0301", "a\nb", "\u65e5\u672cx"]
 CASES = []
 
 
@@ -64,7 +67,7 @@ def instances(tier, seed):
             if tier == "quick" and K == 2 and name in ("ljust", "rjust", "center", "strip", "replace"):
                 layouts = [0, 1]
             for lay in layouts:
-                if name in SLOW:
+                if name in SLOW or alpha == "WIDE":
                     out.append({"name": "m%02d-%s-K%d-l%d-cat" % (ci, name, K, lay), "fn": "method_cat", "timeout": T, "cost": 1,
                                 "params": {"ci": ci, "K": K, "layout": lay, "cat": True}})
                 else:
@@ -84,7 +87,7 @@ def instances(tier, seed):
 
 def _cat_cases():
     out = []
-    for t in CAT_TEXTS:
+    for t in (WIDE_TEXTS if CATALOGUE[P["ci"]][3] == "WIDE" else CAT_TEXTS):
         if P["K"] == 1:
             out.append((t, ""))
         else:
